@@ -693,11 +693,43 @@ async fn lane3(ctx: &Ctx, out: &mut Outcome, total: u64) {
         // the usual shape (with a time window) extracts nothing on this tree because the
         // converter gives up on a conjunction containing a timestamp comparison; so most
         // cases use the bare predicate, which is what reaches the evaluator
-        let sql = if idx % 5 == 0 {
-            format!("SELECT * FROM metrics WHERE timestamp >= 0 AND timestamp <= 100 AND {}", where_sql)
-        } else {
-            format!("SELECT * FROM metrics WHERE {}", where_sql)
+        // a second predicate for the statement shapes that read the table more than once
+        let p2 = loop {
+            let p = gen_pred(&mut rng, &rows, 2, &cols3);
+            if no_empty_lists(&p) {
+                break p;
+            }
         };
+        let where2 = sql_of(&p2);
+        // (count_sql: the same statement as a row count, for the reference)
+        let (sql, count_sql, shape): (String, String, &str) = match idx % 12 {
+            0 | 5 => (
+                format!("SELECT * FROM metrics WHERE timestamp >= 0 AND timestamp <= 100 AND {}", where_sql),
+                format!("SELECT count(*) FROM metrics WHERE {}", where_sql),
+                "time-window",
+            ),
+            7 => {
+                // a union of two filtered selections is a disjunction of their WHEREs
+                let q = format!("SELECT * FROM metrics WHERE {} UNION ALL SELECT * FROM metrics WHERE {}", where_sql, where2);
+                (q.clone(), format!("SELECT count(*) FROM ({}) u", q), "union-all")
+            }
+            9 => {
+                // two CTEs over the table, joined: each side needs its own chunks
+                let q = format!(
+                    "WITH a AS (SELECT pod, value_i64 FROM metrics WHERE {}), b AS (SELECT pod, value_f64 FROM metrics WHERE {}) SELECT a.pod, a.value_i64, b.value_f64 FROM a CROSS JOIN b",
+                    where_sql, where2
+                );
+                (q.clone(), format!("SELECT count(*) FROM ({}) j", q), "cte-join")
+            }
+            11 => {
+                // a derived table that re-uses a base column's name for a computed column: the outer filter is not
+                // a filter on the stored column
+                let q = format!("SELECT * FROM (SELECT value_i64 * 2 + 1 AS value_i64, value_f64 / 4 - 3 AS value_f64, pod FROM metrics) d WHERE {}", where_sql);
+                (q.clone(), format!("SELECT count(*) FROM ({}) s", q), "alias-shadowing")
+            }
+            _ => (format!("SELECT * FROM metrics WHERE {}", where_sql), format!("SELECT count(*) FROM metrics WHERE {}", where_sql), "plain"),
+        };
+        out.count(&format!("lane3.shape.{}", shape), 1);
         let preds = match engine.extract_column_predicates(&sql).await {
             Ok(p) => p,
             Err(e) => {
@@ -741,7 +773,7 @@ async fn lane3(ctx: &Ctx, out: &mut Outcome, total: u64) {
         let rctx = datafusion::prelude::SessionContext::new();
         let mt = datafusion::datasource::MemTable::try_new(schema, vec![vec![batch]]).unwrap();
         rctx.register_table("metrics", Arc::new(mt)).unwrap();
-        let n = match rctx.sql(&format!("SELECT count(*) FROM metrics WHERE {}", where_sql)).await {
+        let n = match rctx.sql(&count_sql).await {
             Ok(df) => match df.collect().await {
                 Ok(b) => {
                     use arrow_array::cast::AsArray;
@@ -761,7 +793,7 @@ async fn lane3(ctx: &Ctx, out: &mut Outcome, total: u64) {
             out.violation(
                 &format!("C12/unsound-prune/{}", blamed),
                 "SQL predicate pushed down and pruned although DataFusion finds matching rows",
-                json!({"lane": 3, "case_index": idx, "seed": ctx.seed, "where": where_sql, "extracted": format!("{:?}", preds),
+                json!({"lane": 3, "case_index": idx, "seed": ctx.seed, "where": where_sql, "statement": sql, "shape": shape, "extracted": format!("{:?}", preds),
                     "stats": stats_json(&stats), "stats_variant": kind, "rows": rows_json(&rows), "matching_rows": n}),
             );
         }
